@@ -251,6 +251,11 @@ func runScenario(r *rand.Rand, idx int) string {
 		if r.Intn(3) == 0 {
 			c.self, c.peer = uint16(r.Intn(1<<16)), uint16(r.Intn(1<<16))
 		}
+		if c.maxrx == 0 {
+			// no limit: a mis-decoded length would make the library allocate whatever it announces and the process
+			// die of memory exhaustion instead of reporting the scenario -- unlimited pipes get their bytes in one piece
+			c.chunks = []int{1 << 20}
+		}
 		h := hdr(c.peer)
 		switch r.Intn(12) {
 		case 0:
